@@ -174,6 +174,18 @@ func c02Comps() []c02Comp {
 		{"helper", "%P{{template \"h\" $}}", 1, false, f, f, `{{define "h"}}` + S + `{{end}}`},
 		{"action-then-helper", "%P" + S + "{{template \"h\" $}}", 2, false, f, f, `{{define "h"}}` + S + `{{end}}`},
 		{"helper-twice", "%P{{template \"h\" $}}{{template \"h\" $}}", 1, false, f, f, `{{define "h"}}` + S + `{{end}}`},
+		// the same single action written with a pipeline, a variable, with / block, or an argument to a helper
+		{"pipe-html", "%P{{$.P0 | html}}", 1, false, f, f, ""},
+		{"pipe-urlquery", "%P{{$.P0 | urlquery}}", 1, false, f, f, ""},
+		{"call-html", "%P{{html $.P0}}", 1, false, f, f, ""},
+		{"call-print", "%P{{print $.P0}}", 1, false, f, f, ""},
+		{"call-print-two", "%P{{print $.P0 $.P1}}", 2, false, f, f, ""},
+		{"call-printf", "%P{{printf \"%s%s\" $.P0 $.P1}}", 2, false, f, f, ""},
+		{"variable", "{{$x := $.P0}}%P{{$x}}", 1, false, f, f, ""},
+		{"with-dot", "%P{{with $.P0}}{{.}}{{end}}", 1, false, f, f, ""},
+		{"helper-with-argument", "%P{{template \"ha\" $.P0}}", 1, false, f, f, `{{define "ha"}}{{.}}{{end}}`},
+		{"block", "%P{{block \"blk\" $.P0}}{{.}}{{end}}", 1, false, f, f, ""},
+		{"paren-pipe", "%P{{($.P0) | print | html}}", 1, false, f, f, ""},
 	}
 }
 
@@ -499,4 +511,15 @@ var c02Root = map[string]string{
 	"helper":                        "single-action",
 	"action-then-helper":            "multiple-dynamic-parts",
 	"helper-twice":                  "multiple-dynamic-parts",
+	"pipe-html":                     "single-action",
+	"pipe-urlquery":                 "single-action",
+	"call-html":                     "single-action",
+	"call-print":                    "single-action",
+	"call-print-two":                "single-action",
+	"call-printf":                   "single-action",
+	"variable":                      "single-action",
+	"with-dot":                      "single-action",
+	"helper-with-argument":          "single-action",
+	"block":                         "single-action",
+	"paren-pipe":                    "single-action",
 }
